@@ -1884,10 +1884,154 @@ std::string wrap_line(int x)
   return s;
 }
 
+// ---- element types whose == is not bit equality and whose order is partial (double: -0.0 == 0.0, NaN != NaN, NaN unordered;
+// a padded struct: equal values with different padding bytes).  The wrappers must give exactly the wrapped / element-wise
+// result of the same operator (theorems transparent_*, std_equal_*, lexicographical_compare_* are generic in the element
+// type); the reference is computed here on the raw values with the built-in operators.
+struct fp_tag_d
+{
+};
+struct fp_tag_f
+{
+};
+using fp_strong_d = fcppt::strong_typedef<double, fp_tag_d>;
+using fp_strong_f = fcppt::strong_typedef<float, fp_tag_f>;
+
+struct padded
+{
+  char c;
+  int i;
+  friend bool operator==(padded const &a, padded const &b) { return a.c == b.c && a.i == b.i; }
+  friend bool operator!=(padded const &a, padded const &b) { return !(a == b); }
+  friend bool operator<(padded const &a, padded const &b) { return a.c < b.c || (a.c == b.c && a.i < b.i); }
+};
+
+template <typename F>
+std::vector<F> fp_specials()
+{
+  return {std::numeric_limits<F>::quiet_NaN(), -std::numeric_limits<F>::infinity(), F(-1.5), F(-0.0), F(0.0), F(1.0),
+          std::numeric_limits<F>::infinity()};
+}
+
+template <typename F>
+bool same_bits(F a, F b)
+{
+  return std::memcmp(&a, &b, sizeof(F)) == 0 || (a != a && b != b);
+}
+
+template <typename Strong, typename F>
+std::string fp_strong_check(char const *name)
+{
+  for (F const a : fp_specials<F>())
+    for (F const b : fp_specials<F>())
+    {
+      Strong const sa{a};
+      Strong const sb{b};
+      if ((sa == sb) != (a == b)) return std::string{"MISMATCH:"} + name + ":==";
+      if ((sa != sb) != (a != b)) return std::string{"MISMATCH:"} + name + ":!=";
+      if ((sa < sb) != (a < b)) return std::string{"MISMATCH:"} + name + ":<";
+      if ((sa <= sb) != (a <= b)) return std::string{"MISMATCH:"} + name + ":<=";
+      if ((sa > sb) != (a > b)) return std::string{"MISMATCH:"} + name + ":>";
+      if ((sa >= sb) != (a >= b)) return std::string{"MISMATCH:"} + name + ":>=";
+      if (!same_bits((sa + sb).get(), a + b)) return std::string{"MISMATCH:"} + name + ":+";
+      if (!same_bits((sa - sb).get(), a - b)) return std::string{"MISMATCH:"} + name + ":-";
+      if (!same_bits((sa * sb).get(), a * b)) return std::string{"MISMATCH:"} + name + ":*";
+      if (!same_bits((-sa).get(), -a)) return std::string{"MISMATCH:"} + name + ":neg";
+    }
+  return "ok";
+}
+
+template <typename T>
+std::string fp_raw_vector_check(std::vector<std::vector<T>> const &seqs, char const *name)
+{
+  using rv = fcppt::container::raw_vector::object<T>;
+  for (auto const &x : seqs)
+    for (auto const &y : seqs)
+    {
+      rv const a(x.begin(), x.end());
+      rv const b(y.begin(), y.end());
+      bool const eq = x.size() == y.size() && std::equal(x.begin(), x.end(), y.begin(), [](T const &l, T const &r) { return l == r; });
+      bool const lt = std::lexicographical_compare(x.begin(), x.end(), y.begin(), y.end(), [](T const &l, T const &r) { return l < r; });
+      bool const gt = std::lexicographical_compare(y.begin(), y.end(), x.begin(), x.end(), [](T const &l, T const &r) { return l < r; });
+      if ((a == b) != eq) return std::string{"MISMATCH:"} + name + ":==";
+      if ((a != b) != !eq) return std::string{"MISMATCH:"} + name + ":!=";
+      if ((a < b) != lt) return std::string{"MISMATCH:"} + name + ":<";
+      if ((a > b) != gt) return std::string{"MISMATCH:"} + name + ":>";
+      if ((a <= b) != !gt) return std::string{"MISMATCH:"} + name + ":<=";
+      if ((a >= b) != !lt) return std::string{"MISMATCH:"} + name + ":>=";
+    }
+  return "ok";
+}
+
+std::string fp_check(std::string const &which)
+{
+  if (which == "std")
+    return fp_strong_check<fp_strong_d, double>("strong_typedef<double>");
+  if (which == "stf")
+    return fp_strong_check<fp_strong_f, float>("strong_typedef<float>");
+  std::vector<double> const vals{std::numeric_limits<double>::quiet_NaN(), -0.0, 0.0, 1.0};
+  if (which == "rvd")
+  {
+    std::vector<std::vector<double>> seqs{{}};
+    for (double const a : vals)
+    {
+      seqs.push_back({a});
+      for (double const b : vals)
+      {
+        seqs.push_back({a, b});
+        seqs.push_back({1.0, a, b});
+      }
+    }
+    return fp_raw_vector_check<double>(seqs, "raw_vector<double>");
+  }
+  if (which == "rvp")
+  {
+    // equal values, different padding bytes: every element is written into storage pre-filled with a different pattern
+    std::vector<std::vector<padded>> seqs{{}};
+    for (int fill : {0x00, 0xFF, 0x5A})
+      for (int n = 1; n <= 3; ++n)
+        for (int v = 0; v < 2; ++v)
+        {
+          std::vector<padded> x(static_cast<std::size_t>(n));
+          std::memset(static_cast<void *>(x.data()), fill, sizeof(padded) * x.size());
+          for (int k = 0; k < n; ++k)
+          {
+            x[static_cast<std::size_t>(k)].c = static_cast<char>('a' + k);
+            x[static_cast<std::size_t>(k)].i = k == n - 1 ? v : 7;
+          }
+          seqs.push_back(x);
+        }
+    return fp_raw_vector_check<padded>(seqs, "raw_vector<padded>");
+  }
+  if (which == "cont")
+  {
+    for (double const a : vals)
+      for (double const b : vals)
+      {
+        bool const eq = a == b;
+        if ((fcppt::optional::object<double>{a} == fcppt::optional::object<double>{b}) != eq) return "MISMATCH:optional<double>:==";
+        if ((fcppt::optional::object<double>{a} != fcppt::optional::object<double>{b}) != !eq) return "MISMATCH:optional<double>:!=";
+        if ((fcppt::array::object<double, 2>{1.0, a} == fcppt::array::object<double, 2>{1.0, b}) != eq) return "MISMATCH:array<double>:==";
+        if ((fcppt::tuple::object<int, double>{1, a} == fcppt::tuple::object<int, double>{1, b}) != eq) return "MISMATCH:tuple<double>:==";
+        if ((fcppt::math::vector::static_<double, 2>{1.0, a} == fcppt::math::vector::static_<double, 2>{1.0, b}) != eq) return "MISMATCH:vector<double>:==";
+        if ((fcppt::math::vector::static_<double, 2>{1.0, a} != fcppt::math::vector::static_<double, 2>{1.0, b}) != !eq) return "MISMATCH:vector<double>:!=";
+        using ei = fcppt::either::object<int, double>;
+        if ((ei{a} == ei{b}) != eq) return "MISMATCH:either<double>:==";
+        using va = fcppt::variant::object<int, double>;
+        if ((va{a} == va{b}) != eq) return "MISMATCH:variant<double>:==";
+        if ((va{a} != va{b}) != !eq) return "MISMATCH:variant<double>:!=";
+      }
+    return "ok";
+  }
+  return "bad-op";
+}
+
 std::string handle(std::vector<std::string> const &t)
 {
   if (t.empty())
     return "bad-op";
+  if (t[0] == "fpchk" && t.size() == 2)
+    return fp_check(t[1]);
   try
   {
     if (t[0] == "st" || t[0] == "sts" || t[0] == "stself" || t[0] == "stselfs" || t[0] == "stmem" || t[0] == "stmems")
